@@ -40,6 +40,11 @@ func (l Limit) TryBorrow() bool {
 // Return 归还借用的资源。当多次归还时返回错误。
 // 归还1个，则从池中释放1个。
 func (l Limit) Return() error {
+	if cap(l.pool) == 0 {
+		// 容量为 0 的限制下不可能有任何借用：不与阻塞中的 Borrow 交接
+		return ErrLimitReturn
+	}
+
 	select {
 	case <-l.pool:
 		return nil
